@@ -182,11 +182,16 @@ def run(facts, rep, tier, ctx):
     ws = World(facts, False)
     mm = compare_world(facts, rep, ws, "", 18)
     argument_only_refusals(facts, rep, ws, "", mm)
+    # a refused call leaves the same tree behind on both backends — on disk nothing happened; in memory nothing may have been
+    # published either (a write handle built before the checks publishes an empty file when the refusal drops it)
+    c01.failed_primitive_unchanged(facts, rep, "R02.1f", mm)
     wa_ = World(facts, True)
     if wa_.present():
         mma_ = compare_world(facts, rep, wa_, "A/", 14)
         if mma_ is not None:
             argument_only_refusals(facts, rep, wa_, "A/", mma_)
+            from .c10 import _Prefixed as _Pf2
+            c01.failed_primitive_unchanged(facts, _Pf2(rep, "A"), "R02.1f", mma_)
     c12.run_error_rs(facts, rep)  # NotFound normalisation etc. (R12.3a) — PhysicalFS side of the class agreement
     physrules.table_o_shape(facts, rep, "R02.2p", ws)
     # R02.5 the physical translator joins the path argument itself: names that are valid on the host (dots-only, backslashes)
